@@ -81,8 +81,9 @@ theorem bind_ok_iff {α β : Type} (x : Except PyErr α) (f : α → Except PyEr
 
 /-! ## 1. The generated functions are the pipeline -/
 
-/-- generic form: the body of either generated function, with the parameter set abstracted, is the
-pipeline.  (Both generated bodies are literally this term with `p` instantiated.) -/
+/-- **pipeline_94_to_2020**: the generated function is the pipeline with the set `gda94_to_gda2020`
+(`"south"`, `grs80`, `utm`, the height-or-0, the zone argument `0` and the 4-place rounding are all
+part of `mgaPipeline`, so a change of any of them in the Python breaks this proof). -/
 theorem pipeline_94_to_2020 (zone east north : ℝ) (ell_ht : Option ℝ) (vcv : Option V9) :
     transform_mga94_to_mga2020 zone east north ell_ht vcv
       = mgaPipeline gda94_to_gda2020 zone east north ell_ht vcv := by
@@ -98,6 +99,7 @@ theorem pipeline_94_to_2020 (zone east north : ℝ) (ell_ht : Option ℝ) (vcv :
      rintro ⟨lat', lon', h'⟩
      cases v' <;> rfl)
 
+/-- **pipeline_2020_to_94**: the same pipeline with the negated set -/
 theorem pipeline_2020_to_94 (zone east north : ℝ) (ell_ht : Option ℝ) (vcv : Option V9) :
     transform_mga2020_to_mga94 zone east north ell_ht vcv
       = mgaPipeline (Transformation.neg gda94_to_gda2020) zone east north ell_ht vcv := by
